@@ -37,11 +37,15 @@ type connEnv struct {
 // connection and thereby hides unsynchronised sharing between connections from the race detector)
 var plainFs bool
 
+// plainBetween: with plainFs, the path another connection keeps opening in between (see yieldFs.between)
+var plainBetween string
+
 func newConnEnv(root string, allowWrite bool, bufSize int64) *connEnv {
 	rec := newRecFs(afero.NewOsFs())
 	var under afero.Fs = rec
+	var between func()
 	if plainFs {
-		under = yieldFs{afero.NewOsFs()}
+		under = yieldFs{afero.NewOsFs(), &between}
 	}
 	var cop *copier.Copier
 	if bufSize > 0 {
@@ -49,9 +53,19 @@ func newConnEnv(root string, allowWrite bool, bufSize int64) *connEnv {
 	} else {
 		cop = copier.NewCopier()
 	}
+	top := &fs.FS{Fs: afero.NewBasePathFs(under, root)}
+	if plainFs && plainBetween != "" {
+		// "another connection" opens (and so probes) a file between any two file-system calls of every connection
+		other := plainBetween
+		between = func() {
+			if g, err := top.Open(other); err == nil {
+				g.Close()
+			}
+		}
+	}
 	s := &server.Server[handler.State]{
 		Handler: &handler.Handler{
-			Fs:         &fs.FS{Fs: afero.NewBasePathFs(under, root)},
+			Fs:         top,
 			AllowWrite: allowWrite,
 			Copier:     cop,
 		},
